@@ -609,6 +609,71 @@ pub fn random_history(fams: &[Family], cache: &mut CleanCache, rng: &mut Rng) ->
     }
 }
 
+/// Validation of the kill model: the same build is killed (a) in-process by the unwinding panic
+/// the simulator uses and (b) in a child process by abort() at the same seam call (no unwinding,
+/// no destructors, every thread gone at once, as with SIGKILL); the surviving trees must be equal.
+fn validate_kill_model(stats: &mut ShardStats, fams: &[Family], cache: &mut CleanCache, seed: u64, n: u64, shard: u64) {
+    let exe = match std::env::current_exe() {
+        Ok(e) => e,
+        Err(_) => return,
+    };
+    for i in 0..n {
+        let mut rng = Rng::new(derive_seed(seed, 1500 + shard, i));
+        let fam = &fams[rng.usize_below(fams.len())];
+        let wf: Vec<&(String, String)> = fam.versions.iter().filter(|(_, t)| cache.get(&fam.name, t, true).is_some()).collect();
+        if wf.len() < 2 {
+            continue;
+        }
+        let a = rng.pick(&wf);
+        let b = rng.pick(&wf);
+        let tree_a = cache.get(&fam.name, &a.1, true).unwrap();
+        let mut plan = Plan::clean(rng.next_u64());
+        plan.width = *rng.pick(&[0usize, 1, 2]);
+        plan.kill_at = Some(rng.usize_below(30));
+        plan.torn = rng.below(3) as u8;
+        // (a) simulated
+        let s1 = Scratch::new();
+        s1.load(&tree_a);
+        s1.edit(&fam.name, &b.1);
+        let r1 = build(&s1, true, plan.clone(), false, None);
+        if r1.outcome != Outcome::Killed {
+            continue;
+        }
+        // (b) real abrupt death in a child process
+        let s2 = Scratch::new();
+        s2.load(&tree_a);
+        s2.edit(&fam.name, &b.1);
+        let st = std::process::Command::new(&exe)
+            .arg("childbuild")
+            .arg(&s2.root)
+            .arg("component")
+            .arg(plan.to_json().to_string())
+            .env("VERIF_HARD_KILL", "1")
+            .stdout(std::process::Stdio::null())
+            .stderr(std::process::Stdio::null())
+            .status();
+        stats.probe("hard_kill_children");
+        match st {
+            Ok(st) if !st.success() => {
+                if s1.tree() != s2.tree() {
+                    stats.diagnostics.push(format!(
+                        "kill model: after a kill before mutation {:?} (torn {}) of {}/{} -> {} the tree left by abort() in a child differs from the simulated one: {:?}",
+                        plan.kill_at,
+                        plan.torn,
+                        fam.name,
+                        a.0,
+                        b.0,
+                        diff_trees(&s2.tree(), &s1.tree())
+                    ));
+                } else {
+                    stats.probe("hard_kill_trees_equal");
+                }
+            }
+            _ => stats.diagnostics.push("kill model: the child did not die although the simulated build was killed".into()),
+        }
+    }
+}
+
 pub fn worker(args: &WorkerArgs, stats: &mut ShardStats) {
     let thorough = args.tier == "thorough";
     let fams = load_families();
@@ -619,6 +684,9 @@ pub fn worker(args: &WorkerArgs, stats: &mut ShardStats) {
     for p in ["scheduler_picks", "interleaved_section", "kill_with_rlib_present", "random_histories"] {
         stats.declare_probe(p);
     }
+    stats.declare_probe("hard_kill_children");
+    stats.declare_probe("hard_kill_trees_equal");
+    validate_kill_model(stats, &fams, &mut cache, args.seed, args.get_u64("hardkills", if thorough { 40 } else { 4 }), args.shard);
     let units = make_units(&fams, &mut cache, args.seed, thorough);
     stats.count("units_total", units.len() as u64);
     let max_units = args.get_u64("units", u64::MAX);
